@@ -64,6 +64,12 @@ def generate(tier, rng):
                 for feat in "iode":
                     for args in positions(style, a):
                         cases.append(mk(ENV, "prog", args, "a", {"gen": "ef", "style": style, "a": a}, feature=feat))
+            # the argument under test directly BEFORE a word that names an alias of the session (`prog '|' ls`): the word is an argument,
+            # whatever the argument before it spells
+            for ctx in "ap":
+                for nxt in "es":
+                    cases.append(mk(ENV, "prog", [(style, a), (nxt, "ls")], ctx, {"gen": "ea", "style": style, "a": a}))
+                cases.append(mk(ENV, "prog", [("s", "x"), (style, a), ("e", "ls"), ("d", "y")], ctx, {"gen": "ea", "style": style, "a": a}))
             # the operator written without blanks, directly after the argument under test
             for ctx in "psno":
                 cases.append(mk(ENV, "prog", [("s", "x"), (style, a)], ctx, {"gen": "et", "style": style, "a": a}, tight=True))
@@ -79,6 +85,8 @@ def generate(tier, rng):
         for _ in range(k):
             style = r.choice("sde")
             a = gens.rand_string(r, ALPHA + ["b", "1", "-", ".", "/", "日本"], 0, 6)
+            if r.chance(1, 12):
+                a = "ls"                                   # the name of an alias of the session, as an argument
             args.append((style, a))
         p = r.choice(["prog", "./argv", "a-b_c.d", "prog", "/bin/x1"])
         if r.chance(1, 4):
